@@ -499,11 +499,94 @@ def inplace_signature(tree, name, executed_lines):
     seen.add(nm)
     line, st = last_store(nm)
     if isinstance(st, ast.AugAssign):
-      return {"augassign_line": line, "through": nm} if nm != name else {"augassign_line": line}
+      return {"augassign_line": line} if nm == name else {"augassign_line": line, "through": nm}
     if isinstance(st, ast.Assign):
       for n in ast.walk(st.value):
         if isinstance(n, ast.Name):
           todo.append((n.id, depth + 1))
+  return None
+
+def closure_signature(tree, func_names):
+  """Some function among `func_names` (or any, if empty) contains a nested def/lambda reading a
+  parameter of the enclosing function that the enclosing function tests by isinstance / is None."""
+  import ast
+  for fn in ast.walk(tree):
+    if not isinstance(fn, ast.FunctionDef):
+      continue
+    if func_names and fn.name not in func_names:
+      continue
+    params = {a.arg for a in fn.args.args + fn.args.kwonlyargs + fn.args.posonlyargs}
+    tested = set()
+    for n in ast.walk(fn):
+      if isinstance(n, ast.Call) and isinstance(n.func, ast.Name) and n.func.id == "isinstance" and n.args \
+          and isinstance(n.args[0], ast.Name):
+        tested.add(n.args[0].id)
+      if isinstance(n, ast.Compare) and isinstance(n.left, ast.Name) and any(
+          isinstance(o, (ast.Is, ast.IsNot)) for o in n.ops):
+        tested.add(n.left.id)
+      if isinstance(n, (ast.If, ast.IfExp, ast.While)):
+        # any narrowing test, including plain truthiness (`if p:` / `if not p:` / `p and ...`)
+        for m in ast.walk(n.test):
+          if isinstance(m, ast.Name):
+            tested.add(m.id)
+    for n in ast.walk(fn):
+      if n is fn or not isinstance(n, (ast.Lambda, ast.FunctionDef)):
+        continue
+      inner = {a.arg for a in n.args.args}
+      body = n.body if isinstance(n, ast.Lambda) else n
+      for m in ast.walk(body):
+        if isinstance(m, ast.Name) and m.id in (params & tested) and m.id not in inner:
+          return {"function": fn.name, "parameter": m.id}
+  return None
+
+
+def called_functions(tree, name):
+  """Names of module-level functions called in the (last) assignment to `name`."""
+  import ast
+  out = set()
+  for st in tree.body:
+    targets = st.targets if isinstance(st, ast.Assign) else []
+    if any(isinstance(t, ast.Name) and t.id == name for t in targets):
+      for c in ast.walk(st.value):
+        if isinstance(c, ast.Call) and isinstance(c.func, ast.Name):
+          out.add(c.func.id)
+  return out
+
+
+def notrun_callee_signature(tree, callee, executed_lines, called_sites=None):
+  """The callee, or a module-level function it (transitively) calls, is also called at a call site that did
+  not run (line never executed, or - for module-level sites - no call event observed from that line)."""
+  import ast
+  in_def = set()
+  for d in ast.walk(tree):
+    if isinstance(d, (ast.FunctionDef, ast.Lambda)):
+      for x in ast.walk(d):
+        if isinstance(x, ast.Call):
+          in_def.add(id(x))
+  funcs = {n.name: n for n in tree.body if isinstance(n, ast.FunctionDef)}
+  for cls in [n for n in tree.body if isinstance(n, ast.ClassDef)]:
+    for n in cls.body:
+      if isinstance(n, ast.FunctionDef):
+        funcs.setdefault(n.name, n)
+  start = callee.split(".")[-1]
+  group, todo = set(), [start]
+  while todo:
+    f = todo.pop()
+    if f in group or f not in funcs:
+      continue
+    group.add(f)
+    for c in ast.walk(funcs[f]):
+      if isinstance(c, ast.Call):
+        nm = c.func.id if isinstance(c.func, ast.Name) else (c.func.attr if isinstance(c.func, ast.Attribute) else None)
+        if nm:
+          todo.append(nm)
+  for c in ast.walk(tree):
+    if isinstance(c, ast.Call):
+      nm = c.func.id if isinstance(c.func, ast.Name) else (c.func.attr if isinstance(c.func, ast.Attribute) else None)
+      if nm in group and c.lineno not in executed_lines:
+        return {"function": nm, "call_line_not_executed": c.lineno}
+      if nm in group and called_sites is not None and id(c) not in in_def and (nm, c.lineno) not in called_sites:
+        return {"function": nm, "module_level_call_never_made_at_line": c.lineno}
   return None
 
 
